@@ -1,6 +1,26 @@
 """C02 — an emission goes to the thread's scoped default, else to the global default."""
 from checklib.main import Stream
 from checks import coregen
+import checklib.main as M
+
+def extra(tier, seed, rng, res, broken):
+    """racing set_global_default calls on real threads (the scenarios and the judge are shared with C04): exactly one call
+    returns Ok and the process-wide default afterwards is that call's collector"""
+    from checks import C04 as _c04
+    cases = _c04.global_cases(rng, 'thorough' if broken else tier, bool(broken))
+    outs, err = M.run_per_process([M.bin_path('h_race')], cases, timeout=30)
+    if err:
+        res.errors.append('global race stream: %s' % err); return
+    verdicts, err = M.driver('C04', 'judge', [c + ' => ' + o for c, o in zip(cases, outs)])
+    if err:
+        res.errors.append('global race judge: %s' % err); return
+    for c, o, v in zip(cases, outs, verdicts):
+        res.evaluations += 1
+        k = 'global race callers=%d' % c.count('sgd')
+        res.hist[k] = res.hist.get(k, 0) + 1
+        if o.count('sgd:') >= 2: res.nontrivial.add('race ' + c)
+        if v != 'ok' and ('global-default' in v or 'set_global_default' in v or 'PANIC' in v or 'DEADLOCK' in v):
+            res.spec_failures.append(('race', c, o, 'judge ' + v))
 
 def gen(rng, tier):
     n = 150 if tier == 'quick' else 3000
@@ -28,15 +48,21 @@ PROPERTY = {
                 'thread\'s live-scope stack, else the completed global default, else none (current_is_innermost, by a simulation relation between the '
                 'thread-local/guard/counter state and per-thread stacks); LIFO restore; frame (other threads untouched); set_global_default succeeds at most once. '
                 'The hand-written model is compared with the real dispatch.rs on generated multi-thread histories (one process each) incl. scopes '
-                'closed by unwinding and scopes used before the global default existed (the F1 regression).',
-        'note': 'Trusted: Lean kernel; axioms propext/Classical.choice/Quot.sound; sequential model (set_global_default\'s three atomic steps are taken together here); '
+                'closed by unwinding and scopes used before the global default existed (the F1 regression). Interleaved: a transition system whose steps are the atomic operations of set_global_default (election, write, publish), '
+                'parametrised by facts extracted from dispatch.rs on every run (global_code_facts), for ANY number of racing callers and EVERY schedule: at most one call returns Ok (global_once_interleaved), a returned Ok means every later '
+                'read yields that collector (installed_is_default), readers never see a half-installed one (reader_never_sees_half_installed); with a load-then-store election two callers both succeed (election_witness). '
+                'Racing callers on real threads are run under enumerated schedules (yield hooks) and judged.',
+        'note': 'Trusted: Lean kernel; axioms propext/Classical.choice/Quot.sound; the history model is sequential (set_global_default\'s steps taken together); the interleaved model covers set_global_default / get_global only, at sequential consistency; '
                 'nested get_default inside collector callbacks (can_enter=false) outside the quantifier; the model is of the code AFTER the fix: commit for F1.',
         'technique': 'Lean 4 proof (simulation relation + induction over histories) of a hand-written model, correspondence-checked against the real crate',
     },
-    'lean_module': 'TracingModel.Props.C02',
+    'lean_module': 'TracingModel.Props.C02G',
+    'leanchecker_modules': ['TracingModel.Props.C02'],
+    'extra_bins': ['h_race'],
     'namespace': 'C02',
-    'units': [],
-    'required_theorems': ['C02.current_is_innermost', 'C02.lifo_restore', 'C02.frame', 'C02.global_once', 'C02.rel_reachable'],
+    'units': ['GlobalInit'],
+    'required_theorems': ['C02.current_is_innermost', 'C02.lifo_restore', 'C02.frame', 'C02.global_once', 'C02.rel_reachable',
+                          'C02.global_code_facts', 'C02.global_once_interleaved', 'C02.installed_is_default', 'C02.reader_never_sees_half_installed', 'C02.election_witness'],
     'streams': [_st],
     'rule': 'one case = one history run in a fresh process: up to 4 threads, nested set_default scopes closed normally or by a caught panic (unwinding through 1..k guards), '
             'set_global_default attempts at any point, emissions everywhere; corpus includes the F1 witness (scope used before the global default existed, other thread holding a scope); '
